@@ -46,7 +46,7 @@ class Choices:
         self.notes = {}
         self.fp_tags = []  # (argument path prefix, tag) pairs that refine C15 fingerprints
         self.last_weights = None
-        self.dtype = np.float32 if dtype in ("float32", np.float32) else np.float64  # per-workload data dtype
+        self.dtype = {"float32": np.float32, "int64": np.int64, "complex128": np.complex128}.get(dtype, np.float64)  # per-workload data dtype
 
     def idx(self, n):
         i = len(self.rec)
@@ -90,18 +90,27 @@ class Choices:
         kind = self.choice(kinds)
         shape = tuple(shape)
         dt = dtype or self.dtype
+
+        def draw(shp):
+            v = rs.random_sample(shp)
+            if dt is np.int64:
+                return (v * 9).astype(np.int64) + 1
+            if dt is np.complex128:
+                return v + 1j * rs.random_sample(shp)
+            return v.astype(dt)
+
         if kind == "slice" and len(shape) >= 1:
-            base = rs.random_sample(tuple(2 * s for s in shape)).astype(dt)
+            base = draw(tuple(2 * s for s in shape))
             a = base[tuple(slice(None, None, 2) for _ in shape)]
         elif kind == "tview" and len(shape) >= 2:
-            base = rs.random_sample(shape[::-1]).astype(dt)
+            base = draw(shape[::-1])
             a = base.T
         elif kind == "f":
-            a = np.asfortranarray(rs.random_sample(shape).astype(dt))
+            a = np.asfortranarray(draw(shape))
         else:
-            a = rs.random_sample(shape).astype(dt)
+            a = draw(shape)
         if not nonneg and signed:
-            a -= dt(0.4) if dt is not np.float64 else 0.4  # in place on the fresh buffer: keeps the view structure
+            a -= dt(4) if dt is np.int64 else dt(0.4)  # in place on the fresh buffer: keeps the view structure
         return a
 
     def low_rank(self, shape, rank, nonneg=False, kinds=("c", "f", "tview", "slice")):
@@ -120,10 +129,10 @@ class Choices:
         return out
 
     def shape3(self):
-        return self.choice([(3, 4, 2), (4, 3, 3), (3, 3, 3), (2, 3, 4)])
+        return self.choice([(3, 4, 2), (4, 3, 3), (3, 3, 3), (2, 3, 4), (3, 1, 2)])
 
     def shapeN(self):
-        return self.choice([(3, 4, 2), (4, 3, 3), (4, 3), (2, 3, 2, 2), (3, 3, 3)])
+        return self.choice([(3, 4, 2), (4, 3, 3), (4, 3), (2, 3, 2, 2), (3, 3, 3), (1, 4, 3)])
 
     def weights(self, rank):
         k = self.choice(["none", "ones", "pos", "neg"])
@@ -171,6 +180,44 @@ def _cb(g):
     return g.callback
 
 
+_SVD_CALLABLES = {}
+
+
+def svd_callables():
+    """User-supplied SVD callables (documented: `svd`/`method` may be a callable)."""
+    if not _SVD_CALLABLES:
+        import functools
+        from tensorly.tenalg.svd import randomized_svd, truncated_svd
+
+        def kwargs_rsvd(matrix, n_eigenvecs=None, **kwargs):
+            return randomized_svd(matrix, n_eigenvecs=n_eigenvecs, **kwargs)
+
+        def plain_tsvd(matrix, n_eigenvecs=None, **kwargs):
+            return truncated_svd(matrix, n_eigenvecs=n_eigenvecs)
+
+        _SVD_CALLABLES.update(
+            partial_rsvd=functools.partial(randomized_svd, n_oversamples=3),
+            kwargs_rsvd=kwargs_rsvd,
+            fn_rsvd=randomized_svd,
+            plain_tsvd=plain_tsvd,
+        )
+    return _SVD_CALLABLES
+
+
+def svd_opt(g, kw, p, randomized=True, name="svd"):
+    """Optionally choose an SVD: by name or as a user callable."""
+    if not g.flag(p):
+        return
+    names = ["truncated_svd", "symeig_svd"] + (["randomized_svd"] if randomized else [])
+    calls = ["plain_tsvd"] + (["partial_rsvd", "kwargs_rsvd", "fn_rsvd"] if randomized else [])
+    pick = g.choice(names + calls)
+    if pick in calls:
+        kw[name] = svd_callables()[pick]
+        g.notes["svd_callable"] = pick
+    else:
+        kw[name] = pick
+
+
 # =============================================================== decompositions
 
 
@@ -183,7 +230,7 @@ def _cp_common(g, kw, shape, rank, nonneg=False, inits=("svd", "random", "user")
     elif init != "svd" or g.flag(0.3):
         kw["init"] = init
     if svds:
-        g.opt(kw, "svd", ["truncated_svd", "symeig_svd", "randomized_svd"], 0.35)
+        svd_opt(g, kw, 0.35)
     kw["random_state"] = g.seed()
 
 
@@ -319,32 +366,34 @@ def e_CPNN(g):
 
 _CONSTRAINTS = [
     ("non_negative", [True, {0: True}, {1: True, 2: True}]),
-    ("l1_reg", [0.1, [0.1, 0.2, 0.1, 0.1], {0: 0.1}]),
-    ("l2_reg", [0.1, {1: 0.2}]),
-    ("l2_square_reg", [0.1, [0.1, 0.1, 0.1, 0.1]]),
+    ("l1_reg", [0.1, [0.1, 0.2, 0.1, 0.1], {0: 0.1}, [0.1]]),
+    ("l2_reg", [0.1, {1: 0.2}, [0.1, 0.2, 0.1, 0.1], [0.2]]),
+    ("l2_square_reg", [0.1, [0.1, 0.1, 0.1, 0.1], [0.1, 0.1]]),
     ("unimodality", [True, {0: True}]),
     ("normalize", [True, {2: True}]),
-    ("simplex", [1.0, {0: 1.0}]),
-    ("normalized_sparsity", [2, {1: 2}]),
-    ("soft_sparsity", [1.0, {0: 1.0}]),
-    ("smoothness", [0.1, {1: 0.1}]),
+    ("simplex", [1.0, {0: 1.0}, [1.0, 1.0, 1.0, 1.0], [1.0]]),
+    ("normalized_sparsity", [2, {1: 2}, [2, 2, 2, 2], [2]]),
+    ("soft_sparsity", [1.0, {0: 1.0}, [1.0, 1.0, 1.0, 1.0], [1.0]]),
+    ("smoothness", [0.1, {1: 0.1}, [0.1, 0.1, 0.1, 0.1], [0.1]]),
     ("monotonicity", [True, {0: True}]),
-    ("hard_sparsity", [2, {2: 2}]),
-]
+    ("hard_sparsity", [2, {2: 2}, [2, 2, 2, 2], [2, 2]]),
+]  # lists shorter than the number of modes are rejected by the library (IndexError): calls that raise are in scope too
 
 
 def _constrained_opts(g, kw, shape, rank):
     name, menu = g.choice(_CONSTRAINTS)
     val = g.choice(menu)
     if isinstance(val, list):
-        val = val[: len(shape)]
+        val = list(val[: len(shape)])
+    elif isinstance(val, dict):
+        val = dict(val)
     kw[name] = val
     if g.flag(0.15):  # a second constraint (may collide on a mode -> documented ValueError)
         name2, menu2 = g.choice(_CONSTRAINTS)
         if name2 != name:
             v2 = g.choice(menu2)
             if isinstance(v2, list):
-                v2 = v2[: len(shape)]
+                v2 = list(v2[: len(shape)])
             kw[name2] = v2
     _cp_common(g, kw, shape, rank)
     g.opt(kw, "n_iter_max_inner", [3, 1], 0.5)
@@ -399,7 +448,7 @@ def e_tucker(g):
         kw["init"] = g.tucker_init(shape, rank)
     elif init == "random" or g.flag(0.3):
         kw["init"] = init
-    g.opt(kw, "svd", ["truncated_svd", "symeig_svd", "randomized_svd"], 0.35)
+    svd_opt(g, kw, 0.35)
     g.opt(kw, "return_errors", [True], 0.3)
     g.opt(kw, "tol", [0, 1e-2], 0.3)
     if g.flag(0.25):
@@ -430,7 +479,7 @@ def e_Tucker(g):
         kw["init"] = g.tucker_init(shape, rank)
     elif init == "random":
         kw["init"] = init
-    g.opt(kw, "svd", ["truncated_svd", "randomized_svd"], 0.3)
+    svd_opt(g, kw, 0.3)
     kw["random_state"] = g.seed()
     tensor = g.low_rank(shape, 2)
 
@@ -457,7 +506,7 @@ def e_partial_tucker(g):
         kw["init"] = g.choice([lambda c, f: (c, f), lambda c, f: [c, f]])(core, facs)
     elif init == "random":
         kw["init"] = init
-    g.opt(kw, "svd", ["truncated_svd", "symeig_svd", "randomized_svd"], 0.35)
+    svd_opt(g, kw, 0.35)
     g.opt(kw, "tol", [0, 1e-2], 0.3)
     if g.flag(0.3):
         kw["mask"] = g.arr(shape, nonneg=True) > 0.3
@@ -496,7 +545,7 @@ def e_nn_tucker_hals(g):
         kw["init"] = g.tucker_init(shape, rank, nonneg=True)
     elif init == "random":
         kw["init"] = init
-    g.opt(kw, "svd", ["truncated_svd", "randomized_svd"], 0.25)
+    svd_opt(g, kw, 0.25)
     g.opt(kw, "return_errors", [True], 0.3)
     g.opt(kw, "normalize_factors", [True], 0.3)
     g.opt(kw, "algorithm", ["active_set"], 0.3)
@@ -541,7 +590,7 @@ def e_parafac2(g):
         elif form == "list":
             p2 = [p2.weights, list(p2.factors), list(p2.projections)]
         kw["init"] = p2
-    g.opt(kw, "svd", ["truncated_svd", "randomized_svd"], 0.3)
+    svd_opt(g, kw, 0.3)
     g.opt(kw, "normalize_factors", [True], 0.25)
     g.opt(kw, "return_errors", [True], 0.3)
     g.opt(kw, "linesearch", [False], 0.4)
@@ -583,7 +632,7 @@ def e_rand_parafac(g):
             g.fp_tags.append(("init", "nonunit-weights"))
     else:
         kw["init"] = init
-    g.opt(kw, "svd", ["truncated_svd", "randomized_svd"], 0.3)
+    svd_opt(g, kw, 0.3)
     g.opt(kw, "return_errors", [True], 0.3)
     g.opt(kw, "max_stagnation", [1, 0], 0.3)
     if g.callback is not None and g.flag(0.5):
@@ -672,7 +721,7 @@ def e_tt(g):
     shape = g.shapeN()
     rank = g.choice([2, [1] + [2] * (len(shape) - 1) + [1], 1])
     kw = dict(input_tensor=g.low_rank(shape, 2), rank=rank)
-    g.opt(kw, "svd", ["truncated_svd", "symeig_svd"], 0.4)
+    svd_opt(g, kw, 0.4, randomized=False)
     return dict(fn=D.tensor_train, kwargs=kw)
 
 
@@ -682,7 +731,7 @@ def e_ttm(g):
 
     shape = g.choice([(2, 2, 3, 3), (2, 3, 2, 3)])
     kw = dict(tensor=g.arr(shape), rank=g.choice([2, [1, 2, 1]]))
-    g.opt(kw, "svd", ["truncated_svd", "symeig_svd"], 0.4)
+    svd_opt(g, kw, 0.4, randomized=False)
     return dict(fn=D.tensor_train_matrix, kwargs=kw)
 
 
@@ -694,7 +743,7 @@ def e_tr(g):
     rank = g.choice([[2, 2, 2, 2], [1, 2, 2, 1], [2, 1, 2, 2]])
     kw = dict(input_tensor=g.low_rank(shape, 2), rank=rank)
     g.opt(kw, "mode", [1, 2], 0.4)
-    g.opt(kw, "svd", ["truncated_svd", "symeig_svd"], 0.4)
+    svd_opt(g, kw, 0.4, randomized=False)
     return dict(fn=D.tensor_ring, kwargs=kw)
 
 
@@ -717,7 +766,9 @@ def e_rpca(g):
 def e_cmtf(g):
     import tensorly.decomposition as D
 
-    shape = g.shape3()
+    # rank <= every mode size: otherwise the SVD initialisation pads with random columns drawn from the
+    # global RNG (the function takes no random_state), i.e. it would no longer be "without random choices"
+    shape = g.choice([(3, 4, 2), (4, 3, 3), (3, 3, 3), (2, 3, 4)])
     rank = g.choice([2, 1])
     kw = dict(tensor_3d=g.low_rank(shape, 2), matrix=g.arr((shape[0], g.choice([3, 2]))), rank=rank, n_iter_max=g.choice([2, 1, 3]))
     g.opt(kw, "normalize_factors", [True], 0.3)
@@ -864,6 +915,8 @@ def e_admm(g):
         name, menu = g.choice(_CONSTRAINTS)
         v = menu[0]
         kw[name] = [v] if g.flag() else {0: v}
+        if g.flag(0.2):
+            kw["n_const"] = 2  # the one-element list is then shorter than n_const
     return dict(fn=admm, kwargs=kw)
 
 
@@ -919,10 +972,12 @@ def e_proxop(g):
 
     name, menu = g.choice(_CONSTRAINTS)
     v = menu[0]
-    form = g.choice(["scalar", "list", "dict"])
+    form = g.choice(["scalar", "list", "dict", "shortlist"])
     order = g.choice([0, 1])
     if form == "list":
         v = [v, v]
+    elif form == "shortlist":
+        v = [v]
     elif form == "dict":
         v = {order: v}
     kw = dict(tensor=g.arr(g.choice([(4, 3), (5, 2)])), n_const=2, order=order)
@@ -939,7 +994,9 @@ def e_valcon(g):
         name, menu = g.choice(_CONSTRAINTS)
         v = g.choice(menu)
         if isinstance(v, list):
-            v = v[:3]
+            v = list(v[:3])
+        elif isinstance(v, dict):
+            v = dict(v)
         kw[name] = v
     return dict(fn=P.validate_constraints, kwargs=kw)
 
@@ -988,6 +1045,8 @@ def e_kron_kr(g, which):
     rs = g.rs()
     n = g.choice([2, 3])
     mats = [g.arr((g.choice([3, 2]), 2), rs=rs) for _ in range(n)]
+    if g.flag(0.2):
+        mats[1] = mats[0]  # the same array twice in the operand list
     kw = dict(matrices=mats if g.flag() else tuple(mats))
     g.opt(kw, "skip_matrix", [0, 1], 0.3)
     if which == "khatri_rao":
@@ -1005,6 +1064,8 @@ def e_inner_outer(g, which):
         kw = dict(tensor1=g.arr((3, 4, 2), rs=rs), tensor2=g.arr(g.choice([(3, 4, 2), (4, 2)]), rs=rs))
         if kw["tensor2"].ndim == 2:
             kw["n_modes"] = 2
+        elif g.flag(0.2):
+            kw["tensor2"] = kw["tensor1"]  # the same array as both operands
     elif which == "outer":
         kw = dict(tensors=[g.arr((3,), rs=rs), g.arr((2, 2), rs=rs), g.arr((2,), rs=rs)])
     elif which == "batched_outer":
@@ -1032,7 +1093,10 @@ def e_svd(g):
     from tensorly.tenalg.svd import svd_interface
 
     shape = g.choice([(5, 3), (3, 5), (4, 4), (6, 2)])
-    kw = dict(matrix=g.low_rank(shape, 2), method=g.choice(["randomized_svd", "truncated_svd", "symeig_svd"]))
+    m = g.choice(["randomized_svd", "truncated_svd", "symeig_svd", "partial_rsvd", "kwargs_rsvd", "fn_rsvd"])
+    kw = dict(matrix=g.low_rank(shape, 2), method=svd_callables()[m] if m.endswith("_rsvd") else m)
+    if m.endswith("_rsvd"):
+        g.notes["svd_callable"] = m
     kw["n_eigenvecs"] = g.choice([2, 1, None, 3])
     g.opt(kw, "flip_sign", [False], 0.2)
     g.opt(kw, "u_based_flip_sign", [False], 0.2)
@@ -1040,7 +1104,7 @@ def e_svd(g):
     if g.flag(0.25):
         kw["mask"] = g.arr(shape, nonneg=True) > 0.2
         g.opt(kw, "n_iter_mask_imputation", [2], 0.5)
-    if kw["method"] == "randomized_svd":
+    if m.endswith("_rsvd") or m == "randomized_svd":
         kw["random_state"] = g.seed()
         if kw["n_eigenvecs"] is None:
             kw["n_eigenvecs"] = 2
@@ -1273,6 +1337,8 @@ def e_metrics(g, which):
     if which == "congruence_coefficient":
         if g.flag():
             kw = dict(matrix1=g.arr((4, 3), rs=rs), matrix2=g.arr((4, 3), rs=rs))
+            if g.flag(0.2):
+                kw["matrix2"] = kw["matrix1"]
         else:
             kw = dict(matrix1=[g.arr((4, 2), rs=rs), g.arr((3, 2), rs=rs)], matrix2=[g.arr((4, 2), rs=rs), g.arr((3, 2), rs=rs)])
         g.opt(kw, "absolute_value", [False], 0.3)
@@ -1283,6 +1349,8 @@ def e_metrics(g, which):
         return dict(fn=correlation_index, kwargs=kw)
     if which in ("MSE", "RMSE", "correlation", "covariance"):
         kw = dict(y_true=g.arr((5, 3), rs=rs), y_pred=g.arr((5, 3), rs=rs))
+        if g.flag(0.2):
+            kw["y_pred"] = kw["y_true"]
         g.opt(kw, "axis", [0, 1], 0.4)
         return dict(fn=getattr(MR, which), kwargs=kw)
     if which == "R2_score":
@@ -1318,7 +1386,7 @@ def e_prep(g):
         kw = dict(tensor_slices=_slices(g, 3, 3, g.choice([[5, 5, 5], [5, 4, 6]])))
         g.opt(kw, "compression_threshold", [0.0, 1e-3], 0.3)
         g.opt(kw, "max_rank", [2], 0.3)
-        g.opt(kw, "svd", ["truncated_svd"], 0.2)
+        svd_opt(g, kw, 0.2, randomized=False)
         return dict(fn=PP.svd_compress_tensor_slices, kwargs=kw)
     rs = g.rs()
     p2 = random_parafac2([(3, 3)] * 3, 2, random_state=np.random.RandomState(4))
